@@ -48,8 +48,8 @@ Values == IF Universe = "atoms" THEN Atoms
 
 Init ==
     /\ src \in Values
-    /\ out = <<>> /\ todo = <<Val(src)>> /\ offs = EmptyMap
-    /\ plan = [doc |-> [objs |-> <<>>], k |-> [junk |-> 0], xrefoff |-> 0]
+    /\ out = <<>> /\ todo = <<Val(src)>> /\ offs = EmptyMap /\ outer = <<>> /\ moffs = <<>>
+    /\ plan = [doc |-> [revs |-> <<>>], k |-> [junk |-> 0], xrefoff |-> 0]
 
 A_EmitTok == EmitTok /\ UNCHANGED src
 A_EmitRaw == EmitRaw /\ UNCHANGED src
